@@ -9,6 +9,7 @@ import operator as _op
 import numpy as np
 from vf import core
 from vf.ref import defs, dims, names, uexpr
+from vf.gen import c01_degenerate as DG
 from .common import chunks, udim
 
 RULE = ("one evaluation = one real call of a commensurability-requiring operation (a ufunc of the add/compare/min-max/"
@@ -24,7 +25,10 @@ RULE = ("one evaluation = one real call of a commensurability-requiring operatio
         "random compound units, and user symbols of custom registries whose dimension differs between registries or was redefined, judged "
         "after the identically spelled commensurable operation ran; and pairs of the SAME spelling whose Unit objects were taken on either side "
         "of an edit of their registry that changed the symbol's dimension, or from two registries defining the symbol differently: (kind of edit, "
-        "unit form, derivation of the old operand, order) cells of the snapshot-unit sweep); commensurable controls, "
+        "unit form, derivation of the old operand, order) cells of the snapshot-unit sweep; and the operand-SIZE sweep: every binary ufunc form, every "
+        "template of a merging function / __setitem__ and every array conversion route re-run with an EMPTY (shapes (0,), (0,3), (2,0), (0,0)) or ONE-element "
+        "((1,), (1,1), (1,3), (2,1)) operand in each operand position - X alone, every operand, every operand but X: (operation/form, kind+degenerate shape, "
+        "plan) cells); commensurable controls, "
         "documented exceptions and observed-only calls are counted separately and are not evaluations")
 ASSUMPTIONS = (
     "trusted base: vf/ref/defs.py dimension vectors + vf/ref/uexpr.py evaluator for every unit string used; the passive tap reads "
@@ -79,6 +83,12 @@ ASSUMPTIONS = (
     "non-zero number as initial= takes the data's unit (DESIGN 4.12): noted",
     "the passive tap also judges every 3-input dispatch of the clip ufunc: dimensions are read off unyt operands and off (nested) list/tuple operands "
     "holding unyt objects; bare operands carry no dimension there",
+    "operand sizes: a quantity array keeps its dimension when it holds no value (size 0) or a single one; 'nothing to merge' is not one of the listed "
+    "exceptions, so an empty / one-element operand of another dimension is judged must-raise exactly like a regular one - but only where the same "
+    "template with the same shapes returns on all-dimensionless operands (shape combinations NumPy itself refuses are vacuous: counted per plan in "
+    "degenerate_size_monitor, never evidence).  An empty BARE array / list is vacuously all-zero and carries no dimension: not judged (bare-zero); an "
+    "empty sequence is not a 'list of quantities'.  Degenerate sizes do not get mechanism keys of their own: a dimension test that is skipped for empty "
+    "operands shows under the operation's ordinary key, and where that key is already a listed finding the test is absent for every size",
     "mechanism keys carry an operand class (dimensional / dimensionless-quantity (scale 1) / scaled-dimensionless-quantity (percent...) / bare-number / "
     "bare-array / quantity-list / dimensionless-quantity-list); handlers that forward a keyword operand to NumPy without looking at it "
     "(pad, diff, ediff1d, interp left/right, histogram bins/range) use one class 'quantity' for every kind of quantity; divmod, "
@@ -306,6 +316,7 @@ def batches(tier, seed):
         nrand = 64
     for i in range(nrand):
         b.append((f"random/{i}", ("random", {"seed": seed, "tier": tier})))
+    b += degenerate_batches(tier, ctxs, uf_all)
     # enumerated (edit x unit form x operand derivation x both orders); the two dimensions and the scales are drawn per batch from the seed
     for i, cc in enumerate(chunks(stale_batches(tier), 12 if tier == "quick" else 48)):
         b.append((f"stale/{i}", ("stale", {"cases": cc, "seed": seed, "tier": tier})))
@@ -316,7 +327,10 @@ def batches(tier, seed):
 VALS = {"x": {"f": [1.5, 2.5, 4.0], "i": [1, 2, 4], "c": [1.5 + 1j, 2.5, 4.0 - 2j]},
         "y": {"f": [1.5, 0.5, 4.0], "i": [1, 5, 4], "c": [1.5 + 1j, 0.5, 4.0 - 2j]},
         "z": {"f": [8.0, 9.5, 11.0], "i": [8, 9, 11], "c": [8.0, 9.5j, 11.0]}}
-SHAPES = {"0": (), "1": (3,), "2": (2, 3)}
+# "0" scalar, "1" (3,), "2" (2,3) are the regular shapes of the kind matrix; the degenerate codes (empty: e (0,), e3 (0,3), 2e (2,0), ee (0,0);
+# one-element: o (1,), oo (1,1), o3 (1,3), 2o (2,1)) are the operand-SIZE dimension of the workload (vf/gen/c01_degenerate.py)
+SHAPES = dict(DG.ALL_SHAPES)
+REGULAR_SHAPES = tuple(DG.REGULAR)
 
 
 def kindch(dt):
@@ -331,7 +345,9 @@ def vals(role, shp, dt):
         return np.array(base[0], dtype=dt)
     if shp == "1":
         return a
-    return np.stack([a, a + np.array(1, dtype=dt)])
+    if shp == "2":
+        return np.stack([a, a + np.array(1, dtype=dt)])
+    return DG.resize(base, SHAPES[shp], dt)
 
 
 QKINDS = ("same", "samedim", "diff", "dimless", "percent")
@@ -346,6 +362,22 @@ _SEQ = {"qlist": ("1", list, ("same",) * 3), "qlist-diff": ("1", list, ("diff",)
 
 
 NEST_KINDS = [k for k, v in _SEQ.items() if v[0] == "2"]
+
+
+def seq_kinds(kind, shp):
+    """kinds of the members (per row) of a sequence-of-quantities operand of shape code shp, None if the kind has no such shape.  Besides its
+    regular shape a sequence kind exists with ONE member per row (1-d: shape o; nested: o3 = one row, 2o / oo = one member per row) as long as
+    the truncation keeps its mixture of kinds; an EMPTY sequence holds no quantity, carries no dimension and is not a sequence of quantities"""
+    sshp, _, ks = _SEQ[kind]
+    if shp == sshp:
+        return ks
+    if sshp == "1" and shp == "o":
+        used = ks[:1]
+    elif sshp == "2" and shp in ("o3", "2o", "oo"):
+        used = ks[:SHAPES[shp][1]]
+    else:
+        return None
+    return used if set(used) == set(ks) else None
 SPELL_UKINDS = ["same", "samedim", "diff", "dimless", "percent", "zeroq"]
 SPELL_KPAIRS = [[u, k] for u in SPELL_UKINDS for k in SPELL_KINDS] + [[k, u] for u in SPELL_UKINDS for k in SPELL_KINDS]
 
@@ -428,11 +460,11 @@ def mk(ctx, kind, shp, role, dt):
             o = v[()] + v.dtype.type(1)
         return o, ZERO, "bn"
     if kind == "barray":
-        if shp == "0":
+        if shp == "0" or shp in DG.EMPTY:       # an empty bare array is vacuously all-zero: kind "zero"
             return None
         return vals(role, shp, dt), ZERO, "ba"
     if kind == "barray-z":
-        if shp == "0":
+        if shp != "1" and shp != "2":
             return None
         v = vals(role, shp, dt).copy()
         v[..., 0] = 0
@@ -443,13 +475,14 @@ def mk(ctx, kind, shp, role, dt):
             return (0 if role == "x" else 0.0), ZERO, "b0"
         if shp == "1":
             return (np.zeros(3, dtype=dt) if role == "x" else [0, 0.0, 0]), ZERO, "b0"
-        return np.zeros((2, 3), dtype=dt), ZERO, "b0"
+        return np.zeros(SHAPES[shp], dtype=dt), ZERO, "b0"
     if kind in _SEQ:
-        sshp, typ, ks = _SEQ[kind]
-        if shp != sshp:
+        typ = _SEQ[kind][1]
+        ks = seq_kinds(kind, shp)
+        if ks is None:
             return None
         v = vals(role, shp, dt)
-        if shp == "1":
+        if v.ndim == 1:
             o = typ(ctx.q(k, np.array(x)) for x, k in zip(v, ks))
         else:       # nested list (rows are lists) or list of tuples
             o = [typ(ctx.q(k, np.array(x)) for x, k in zip(row, ks)) for row in v]
@@ -469,12 +502,14 @@ def kinfo(ctx, kind, shp):
         return d, ctx.c["diff"], True
     if kind == "bscalar":
         return (ZERO, "bn", False) if shp == "0" else None
-    if kind in ("barray", "barray-z"):
-        return (ZERO, "ba", False) if shp != "0" else None
+    if kind == "barray":
+        return (ZERO, "ba", False) if (shp != "0" and shp not in DG.EMPTY) else None
+    if kind == "barray-z":
+        return (ZERO, "ba", False) if shp in ("1", "2") else None
     if kind == "zero":
         return ZERO, "b0", False
-    sshp, _, ks = _SEQ[kind]
-    if shp != sshp:
+    ks = seq_kinds(kind, shp)
+    if ks is None:
         return None
     ds = {ctx.d[k] for k in ks}
     d = ds.pop() if len(ds) == 1 else None
@@ -735,7 +770,7 @@ def drive_ufmatrix(J, payload):
     kpairs = payload.get("kpairs")      # optional restriction of the ordered operand-kind pairs
     kpairs = None if kpairs is None else {tuple(x) for x in kpairs}
     probe = ctxs[0]
-    bshapes = {(a, b): np.broadcast_shapes(SHAPES[a], SHAPES[b]) for a in SHAPES for b in SHAPES}
+    bshapes = {(a, b): np.broadcast_shapes(SHAPES[a], SHAPES[b]) for a in SHAPES for b in SHAPES if DG.broadcastable(a, b)}
     for name in payload["ufuncs"]:
         fam = FAMILY[name]
         for dt in payload["dtypes"]:
@@ -772,6 +807,11 @@ def drive_ufmatrix(J, payload):
                             cell = (k1 + s1, k2 + s2, dt)
                             callstr = f"np.{name} <{form}>({k1}{SHAPES[s1]}, {k2}{SHAPES[s2]}, {dt})"
                             J.tags = tuple("spelling:" + k for k in (k1, k2) if k in SPELL_KINDS)
+                            if DG.pair_class(s1, s2) is not None:
+                                # operand-SIZE dimension: an empty / one-element operand in either position
+                                J.tags += ("degenerate:ufunc:" + DG.pair_class(s1, s2),)
+                                J.tags += tuple(f"degenerate:ufunc:{DG.shape_class(s_)}-{pos}" for pos, s_ in (("first", s1), ("second", s2))
+                                                if DG.shape_class(s_))
                             for ctx in ctxs:
                                 a1 = kinfo(ctx, k1, s1)
                                 a2 = kinfo(ctx, k2, s2)
@@ -899,8 +939,12 @@ class Env:
     pass
 
 
-def make_env(ctx, kind, xshp, dt):
-    """fresh operands for one template call; returns None when the kind has no realisation of that shape"""
+def make_env(ctx, kind, xshp, dt, plan=None):
+    """fresh operands for one template call; returns None when the kind has no realisation of that shape.
+    plan (vf/gen/c01_degenerate.py) resizes X alone, every operand, or every operand but X to 0 / 1 elements"""
+    n = 3
+    if plan is not None:
+        xshp, n = DG.env_shapes(plan, xshp)
     ox = mk(ctx, kind, xshp, "y", dt)
     if ox is None:
         return None
@@ -911,21 +955,22 @@ def make_env(ctx, kind, xshp, dt):
     e.X, e.dX, e.cX = ox
     oz = mk(ctx, kind, xshp, "z", dt)
     e.X2 = oz[0]
-    e.P = mk(ctx, "same", "1", "x", dt)[0]
-    e.P2 = mk(ctx, "same", "1", "z", dt)[0]
+    s1, s2 = ("1", "2") if n == 3 else (("e", "2e") if n == 0 else ("o", "2o"))
+    e.P = mk(ctx, "same", s1, "x", dt)[0]
+    e.P2 = mk(ctx, "same", s1, "z", dt)[0]
     e.Pq = mk(ctx, "same", "0", "x", dt)[0]
     e.hi = mk(ctx, "same", "0", "z", dt)[0]
-    e.M = mk(ctx, "same", "2", "x", dt)[0]
-    e.S = ctx.q("same", np.arange(1, 10, dtype=dt).reshape(3, 3))
+    e.M = mk(ctx, "same", s2, "x", dt)[0]
+    e.S = ctx.q("same", np.arange(1, n * n + 1, dtype=dt).reshape(n, n))
     fdt = "c16" if kindch(dt) == "c" else "f8"
-    e.buf3 = ctx.q("same", np.zeros(3, dtype=fdt))
-    e.buf6 = ctx.q("same", np.zeros(6, dtype=fdt))
-    e.buf23 = ctx.q("same", np.zeros((2, 3), dtype=fdt))
-    e.mask = np.array([True, False, True])
-    e.mask2 = np.array([[True, False, True], [False, True, False]])
-    e.all3 = np.array([True, True, True])
-    e.idx01 = np.array([0, 1, 0])
-    e.idx012 = np.array([0, 1, 2])
+    e.buf3 = ctx.q("same", np.zeros(n, dtype=fdt))
+    e.buf6 = ctx.q("same", np.zeros(2 * n, dtype=fdt))
+    e.buf23 = ctx.q("same", np.zeros((2, n), dtype=fdt))
+    e.mask = np.array([True, False, True][:n])
+    e.mask2 = np.array([[True, False, True][:n], [False, True, False][:n]])
+    e.all3 = np.array([True, True, True][:n])
+    e.idx01 = np.array([0, 1, 0][:n], dtype=int)
+    e.idx012 = np.array([0, 1, 2][:n], dtype=int)
     e.UA = ctx.U["same"]
     e.uA = ctx.u["same"]
     return e
@@ -1179,17 +1224,23 @@ def af_mode(dX, cX, dA, flags):
 def drive_arrayfn(J, payload, only=None):
     un, rec = J.unyt, J.rec
     ctxs = [as_ctx(un, c) for c in payload["ctxs"]]
-    for (name, xshp, fn, flags, keyop) in TEMPLATES:
+    plans = [None if p_ is None else tuple(p_) for p_ in payload.get("plans", [None])]
+    for (name, xshp0, fn, flags, keyop) in TEMPLATES:
         if only is not None and name not in only:
             continue
         sub = "setitem" if name.startswith("setitem/") else "arrayfn"
-        for dt in payload["dtypes"]:
+        for dt, plan in ((dt_, p_) for dt_ in payload["dtypes"] for p_ in plans):
+            # operand-SIZE dimension: under a plan X (or every operand, or every operand but X) has 0 / 1 elements
+            xshp = xshp0 if plan is None else DG.env_shapes(plan, xshp0)[0]
+            if plan is not None and plan[0] == "all" and xshp0 == "0":
+                continue        # X stays a scalar: that is the P plan
+            ptag = () if plan is None else (DG.plan_tag(plan),)
             for kind in payload.get("kinds", AF_KINDS):
                 if kinfo(J.twin, kind, xshp) is None:
                     continue
 
-                def build(c, kind=kind):
-                    e = make_env(c, kind, xshp, dt)
+                def build(c, kind=kind, plan=plan):
+                    e = make_env(c, kind, xshp0, dt, plan)
                     return (lambda: fn(e)), env_operands(e)
                 for ctx in ctxs:
                     dX, cX, _ = kinfo(ctx, kind, xshp)
@@ -1202,8 +1253,11 @@ def drive_arrayfn(J, payload, only=None):
                     if "overwrite" in flags and mode == "must-raise" and cX in ("q", "dl", "dlp", "ql", "qld") and dX is not None:
                         after_ok = (lambda ops, r, dX=dX: hasattr(ops[0], "units") and udim(ops[0].units) == dX)
                     J.tags = tuple(f for f in flags if f.startswith("door:")) + (("spelling:" + kind,) if kind in SPELL_KINDS else ())
-                    J.case(sub, name, "call", mode, build, ctx, (kind + xshp, dt) + ctx.celltag(), cls, (name, kind, dt),
-                           f"{name} with X={kind}{SHAPES[xshp]} ({dt})", eq_want=False, after_ok=after_ok, free_reason=why, keyop=keyop)
+                    if plan is not None:
+                        J.tags = (f"degenerate:{sub}:{DG.plan_class(plan)}",)
+                    J.case(sub, name, "call", mode, build, ctx, (kind + xshp, dt) + ptag + ctx.celltag(), cls, (name, kind, dt) + ptag,
+                           f"{name} with X={kind}{SHAPES[xshp]} ({dt}){' ' + ptag[0] if ptag else ''}", eq_want=False, after_ok=after_ok,
+                           free_reason=why, keyop=keyop)
                     J.tags = ()
 
 
@@ -1212,10 +1266,10 @@ ROUTES = ["to(str)", "to(Unit)", "in_units", "to_value", "convert_to_units", "q.
           "view.convert_to_units", "Unit.get_conversion_factor", "to(quantity)", "Unit+Unit", "Unit-Unit"]
 
 
-def conv_builder(route, dt):
+def conv_builder(route, dt, shp="1"):
     def build(c):
         un = c.unyt
-        a = mk(c, "same", "1", "x", dt)[0]
+        a = mk(c, "same", shp, "x", dt)[0]
         q = mk(c, "same", "0", "x", dt)[0]
         tgt = c.u["diff"]
         TU = c.U["diff"]
@@ -1254,15 +1308,19 @@ def conv_builder(route, dt):
     return build
 
 
-def convert_ctx(J, ctx, dts, routes=None):
-    """all conversion routes from ctx's unit A to its unit B"""
+ARRAY_ROUTES = ["to(str)", "to(Unit)", "in_units", "to_value", "convert_to_units", "to(quantity)"]     # routes whose source is the array `a`
+
+
+def convert_ctx(J, ctx, dts, routes=None, shp="1"):
+    """all conversion routes from ctx's unit A to its unit B; shp = shape code of the converted array (degenerate sizes: array routes only)"""
+    stag = () if shp == "1" else (shp,)
     rec = J.rec
     a, b = ctx.u["same"], ctx.u["diff"]
     dA, dB = ctx.d["same"], ctx.d["diff"]
     cls = samespell_class(ctx, opclass(ctx.c["same"], ctx.c["diff"]))
     for dt in dts:
         for route in (routes or ROUTES):
-            b_ = conv_builder(route, dt)
+            b_ = conv_builder(route, dt, shp)
             if route.startswith("Unit") and route[4] in "+-":
                 # Unit + Unit / Unit - Unit always raise (statement anchor): no returning twin exists; counted directly
                 th, ops = b_(ctx)
@@ -1280,8 +1338,8 @@ def convert_ctx(J, ctx, dts, routes=None):
                 mode, why = "free", "documented-EM-conversion"
             else:
                 mode, why = "must-raise", None
-            J.case("convert", route, "call", mode, b_, ctx, ("dims", ctx.tag, dt), cls, (route, dt),
-                   f"{route}: {a} -> {b} ({dt})", free_reason=why)
+            J.case("convert", route, "call", mode, b_, ctx, ("dims", ctx.tag, dt) + stag, cls, (route, dt) + stag,
+                   f"{route}: {a} -> {b} ({dt}{', source array of shape ' + str(SHAPES[shp]) if stag else ''})", free_reason=why)
 
 
 def drive_convert(J, payload):
@@ -1483,6 +1541,59 @@ def drive_stale(J, bid, payload):
     rec.sample({"stale-cases": [list(c) for c in payload["cases"][:3]]})
 
 
+# ------------------------------------------------------------------ degenerate operand sizes
+# An operand of another dimension keeps its dimension when it holds no value (size 0) or a single one.  Every binary ufunc form, every template
+# of a merging array function / __setitem__ and every array conversion route is re-run with an empty / one-element operand in each operand
+# position (vf/gen/c01_degenerate.py: shape codes and plans); judged exactly like the regular sizes, i.e. only where the same call with the
+# same shapes on all-dimensionless operands returns.
+DEG_UKINDS = ["same", "samedim", "diff", "dimless", "percent", "zeroq", "zero", "qlist-diff", "qtuple-diff", "qlist-dl", "qnest-diff"]
+DEG_KPAIRS = ([["same", k] for k in DEG_UKINDS] + [[k, "same"] for k in DEG_UKINDS[1:]]
+              + [["samedim", "diff"], ["diff", "samedim"], ["dimless", "diff"], ["diff", "percent"], ["diff", "qlist"], ["qlist", "diff"]])
+DEG_AF_KINDS = ["same", "diff", "dimless", "percent", "zero", "qlist-diff", "qtuple-diff", "qnest-diff"]
+DEG_SUBS = {"ufunc": ["empty", "one", "empty-first", "empty-second", "one-first", "one-second"],
+            "arrayfn": list(DG.PLAN_CLASSES),
+            # an empty value cannot be assigned into a non-empty target (NumPy refuses it for bare arrays too), so X-empty is vacuous for __setitem__
+            "setitem": [c for c in DG.PLAN_CLASSES if c != "X-empty"],
+            "convert": ["empty", "one"]}
+
+
+def degenerate_batches(tier, ctxs, uf_all):
+    b = []
+    quick = tier == "quick"
+    nctx = 2 if quick else 3      # the thorough tier stays within ~3x the quick size of this sweep (more contexts, more shape pairs, a second dtype)
+    rot = lambda i: [ctxs[(nctx * i + j) % len(ctxs)] for j in range(nctx)]
+    sp = [list(p) for p in DG.ufunc_shape_pairs(tier)]
+    for i, ufc in enumerate(chunks(uf_all, 4 if quick else len(uf_all))):
+        b.append((f"degenerate/ufunc.{i}", ("degenerate", {"part": "ufunc", "ufuncs": ufc, "ctxs": rot(i), "dtypes": ["f8"], "tier": tier, "kinds": DEG_UKINDS, "kpairs": DEG_KPAIRS, "shape_pairs": sp, "unary": False})))
+    names_ = [t[0] for t in TEMPLATES if "observe" not in t[3]]
+    nsl = 6 if quick else 16
+    for i in range(nsl):
+        b.append((f"degenerate/arrayfn.{i}", ("degenerate", {"part": "arrayfn", "only": names_[i::nsl], "ctxs": rot(i + 3), "kinds": DEG_AF_KINDS,
+                                                              "dtypes": ["f8"] if (quick or i % 4) else ["f8", "i8"],
+                                                              "plans": [list(p) for p in DG.plans(tier)]})))
+    b.append(("degenerate/convert", ("degenerate", {"part": "convert", "ctxs": rot(1) + rot(4), "dtypes": ["f8", "i8"] if quick else ["f8", "i8", "c16"]})))
+    return b
+
+
+def drive_degenerate(J, payload):
+    un = J.unyt
+    part = payload["part"]
+    if part == "ufunc":
+        drive_ufmatrix(J, payload)
+    elif part == "arrayfn":
+        drive_arrayfn(J, payload, only=set(payload["only"]))
+    else:
+        for c in payload["ctxs"]:
+            uA, uA2, uB = c
+            for (a, b_) in ((uA, uB), (uA2, uB), (uA, "dimensionless"), (uA, "%"), ("dimensionless", uB)):
+                ctx = Ctx(un, a, a, b_)
+                for shp in DG.DSHAPES:
+                    J.tags = ("degenerate:convert:" + DG.shape_class(shp),)
+                    convert_ctx(J, ctx, payload["dtypes"], ARRAY_ROUTES, shp)
+                    J.tags = ()
+    J.rec.sample({"degenerate": part, "contexts": payload["ctxs"][:2], "shape_codes": {k: list(v) for k, v in DG.DSHAPES.items()}})
+
+
 def drive_offsets(J, payload):
     """offset scales (degC, degF, lat, lon) take special branches before the dimension test: drive them against other dimensions"""
     un = J.unyt
@@ -1546,6 +1657,8 @@ def worker(batch, rec):
         drive_random(J, bid, payload)
     elif kind == "stale":
         drive_stale(J, bid, payload)
+    elif kind == "degenerate":
+        drive_degenerate(J, payload)
     else:
         raise KeyError(kind)
     def tname(k):
@@ -1619,12 +1732,17 @@ def extra(tier, seed, results):
     door_names = sorted({f[5:] for t in TEMPLATES for f in t[3] if f.startswith("door:")} | {"ufunc.at"})
     doors = {d: {"judged": counters.get("judged-tag:door:" + d, 0), "vacuous": counters.get("vacuous-tag:door:" + d, 0)} for d in door_names}
     spell = {k: counters.get("judged-tag:spelling:" + k, 0) for k in SPELL_KINDS}
+    degen = {f"{sub_}:{c}": {"judged": counters.get(f"judged-tag:degenerate:{sub_}:{c}", 0), "vacuous": counters.get(f"vacuous-tag:degenerate:{sub_}:{c}", 0)}
+             for sub_, cs in DEG_SUBS.items() for c in cs + (["X-empty"] if sub_ == "setitem" else [])}
     out = {
         "sub_monitor_judged": sub,
         # call doors: judged = refusals/returns that counted; vacuous = the door refuses all-dimensionless operands too (driven, not deciding)
         "call_door_monitor": doors,
         "call_doors_wholly_vacuous": sorted(d for d, v in doors.items() if v["judged"] == 0 and v["vacuous"] > 0),
         "operand_spelling_monitor_judged": spell,
+        # operand-SIZE dimension: judged = calls with an empty / one-element operand of another dimension that counted (the same call on
+        # all-dimensionless operands of the same shapes returns); vacuous = NumPy cannot run the template with these shapes at all
+        "degenerate_size_monitor": degen,
         "tap_clip_ufunc_mixed_dispatches_seen": counters.get("tap:clip-mixed-dispatch", 0),
         "stale_unit_monitor_judged": stale,
         "stale_unit_monitor_eq_constant_answers": stale_eq,
@@ -1661,6 +1779,10 @@ def extra(tier, seed, results):
     for k, v in spell.items():
         if v == 0:
             raise core.Inconclusive(f"operand-spelling-{k}-judged-0-times")
+    for sub_, cs in DEG_SUBS.items():
+        for c in cs:
+            if degen[f"{sub_}:{c}"]["judged"] == 0:
+                raise core.Inconclusive(f"degenerate-size-monitor-{sub_}:{c}-judged-0-times")
     for k, v in stale_eq.items():
         if v == 0:
             raise core.Inconclusive(f"eq-exception-never-observed-in-{k}")
